@@ -194,7 +194,7 @@ func perioHistory(evs []perioEvent) []perioObs {
 	}
 	rec := &perioRec{}
 	s.Handle(rec, rec.query)
-	closed := false   // Serve has returned (observed through wg)
+	closed := false // Serve has returned (observed through wg)
 	patience := 5 * time.Second
 	for i := range evs {
 		e := &evs[i]
